@@ -68,7 +68,7 @@ class C05:
         return _strategy()
 
     def examples(self, tier):
-        return 160 if tier == "quick" else 4000
+        return 160 if tier == "quick" else 24000
 
     def enumerate(self, tier):
         return []
